@@ -16,6 +16,8 @@ def build(eng, tier):
     ir_targets.build(eng, tier, "C06")
     from . import usedef_targets
     usedef_targets.build(eng, "C06")
+    from . import init_targets
+    init_targets.build(eng, "C06")
     from . import C12
     add_rename_target(eng)
     add_value_name_target(eng)
